@@ -1,18 +1,26 @@
-(* Correspondence for C11: every case is the history
-     list denied; list allowed; X; list denied; list allowed; known-good session
-   run on a real access.API; the model must give the same six answers (see Access_common.v for the projection,
-   "no answer at all" being the observation [Panic]).
-   Non-trivial: X gets past the router and the authenticator, i.e. all six requests reach a handler. *)
+(* Correspondence for C11.  A case is a history run on a real access.API plus the positions of its test
+   requests:
+     - the short form  [list denied; list allowed; X; list denied; list allowed; known-good session]  (X at 2);
+     - stateful histories: steps drawn from a small pool of bearers / booking ids / expiries (the same strings
+       again and again, exact repeats, clock moves in between), each step followed by a probe of all six
+       endpoints with known-good requests.
+   The model must give the same answer to every request (projection in Access_common.v; "no answer at all" is
+   the observation [Panic]).
+   Non-trivial: at least one of the test requests gets past the router and the authenticator. *)
 From Relay Require Import Base.Prelude Model.DenyStore Model.Token Model.Access Corr.Access_common.
 
-Definition case := Access_common.case.
-Definition case_ok : case -> bool := Access_common.case_ok.
+Definition case := (Access_common.case * list N)%type.
+Definition case_ok (c : case) : bool := Access_common.case_ok (fst c).
 
-Definition nreq (ops : list op) : N :=
-  count_true (fun o => match o with OReq _ => true | _ => false end) ops.
+Fixpoint reach_flags (cfg : config) (s : st) (ops : list op) : list bool :=
+  match ops with
+  | [] => []
+  | o :: r => reaches_handler cfg s o :: reach_flags cfg (fst (step cfg s o)) r
+  end.
 
 Definition case_nontrivial (c : case) : bool :=
-  let '(cfg, t, ops, _) := c in (count_reaching cfg (init t) ops =? nreq ops)%N.
+  let '((cfg, t, ops, _), idx) := c in
+  existsb (fun i => nth (N.to_nat i) (reach_flags cfg (init t) ops) false) idx.
 
 Definition mismatches (cs : list case) : list N := mismatch_idx case_ok 0 cs.
 Definition nontrivial (cs : list case) : list N := idx_where case_nontrivial cs.
